@@ -12,6 +12,7 @@ PROP = {  # substring of the commit subject -> property whose check must catch t
  "shrinking a sparse array": "C07", "did not un-count the removed elements": "C07", "miscounted elements": "C07", "took the dense fast path": "C07",
  "generator return() kept a pointer": "C09", "inside a generator resumption": "C09", "finally block after the try block completed normally": "C08",
  "host strings (lazily scanned": "C16",
+ "sloppy-mode delete of a non-configurable": "C07",
  "copyWithin did not clamp": "C17", "set(arrayLike)": "C17", "ignored the match limit": "C20", "carried into the sign": "C12",
 }
 log = subprocess.run("git -C /repo log --format='%h %s' --grep='^fix:'", shell=True, capture_output=True, text=True).stdout.splitlines()
